@@ -38,7 +38,7 @@ func init() {
 		ID:   "C05",
 		Rule: "scenario = (client or component, SM on/off, inbound element sequence incl. <r/>, <a/>, sizes up to 70 KiB, optional cut, segmentation, latency, handler behaviour); non-trivial = session established and at least one inbound element delivered; distinct = distinct (scenario hash, schedule hash)",
 		Real: []string{"xmpp.Client / xmpp.Component receive loops", "xmpp.Router and per-packet route goroutines", "xmpp.XMPPTransport", "stanza.NextPacket and codec"},
-		Stub: []string{"TCP (simnet)", "XMPP server (scripted model)", "clock (synctest)", "goroutine scheduling (token scheduler)", "sync.RWMutex (equivalent shim)", "WebSocket transport not exercised (see DESIGN.md §8)"},
+		Stub: []string{"TCP (simnet)", "XMPP server (scripted model)", "clock (synctest)", "goroutine scheduling (token scheduler)", "sync.RWMutex (equivalent shim)"},
 		Run:  runC05,
 	})
 }
@@ -81,7 +81,7 @@ func runC05(e *Engine, g G, o RunOpt) RunInfo {
 		io2.AllowA = false
 	}
 	if sc.WebSocket {
-		io2.AllowBig = false // frames are limited to 32 KiB by the transport
+		io2.MaxBig = 30000 // frames are limited to 32 KiB by the transport
 		io2.AllowSpace = false
 		if n > 25 {
 			n = 25
